@@ -207,6 +207,9 @@ func leanTypeM(t types.Type) (string, error) {
 	if lt, ok := k19Type(t); ok { // ext_k19.go: float64 / []float64 of a number-polymorphic kernel (kind funcn)
 		return lt, nil
 	}
+	if lt, ok := k03wType(t); ok { // wp k03w (ext_k03w.go)
+		return lt, nil
+	}
 	switch u := t.Underlying().(type) {
 	case *types.Basic:
 		if u.Info()&types.IsString != 0 {
@@ -377,6 +380,9 @@ func (fc *fnCtx) lexpr(ex ast.Expr) (string, error) {
 	if s, handled, err := fc.extLexpr(ex); handled { // ext_k17k20.go
 		return s, err
 	}
+	if s, handled, err := fc.k03wLexpr(ex); handled { // wp k03w (ext_k03w.go)
+		return s, err
+	}
 	switch x := ex.(type) {
 	case *ast.ParenExpr:
 		return fc.lexpr(x.X)
@@ -482,6 +488,9 @@ func (fc *fnCtx) mexpr(ex ast.Expr) (string, bool, error) {
 		return s, true, err
 	}
 	if s, handled, err := fc.dmxMexpr(ex); handled { // wp dmmirror (ext_dmmirror.go)
+		return s, true, err
+	}
+	if s, handled, err := fc.k03wMexpr(ex); handled { // wp k03w (ext_k03w.go)
 		return s, true, err
 	}
 	switch x := ex.(type) {
@@ -1196,6 +1205,9 @@ func (fc *fnCtx) mblock(stmts []ast.Stmt, lvl int) (string, error) {
 		}
 		return prefix + r, nil
 	}
+	if text, handled, err := fc.k03wStmt(s, rest, lvl); handled { // wp k03w (ext_k03w.go; before extStmt, which refuses `n += F(args)`)
+		return text, err
+	}
 	if text, handled, err := fc.extStmt(s, rest, lvl); handled { // ext_k17k20.go
 		return text, err
 	}
@@ -1776,6 +1788,9 @@ func (fc *fnCtx) lexprOrMake(ex ast.Expr) (string, error) {
 
 func (fc *fnCtx) massign(x *ast.AssignStmt, rest []ast.Stmt, lvl int) (string, error) {
 	if s, handled, err := fc.dmxAssign(x, rest, lvl); handled { // wp dmmirror (ext_dmmirror.go)
+		return s, err
+	}
+	if s, handled, err := fc.k03wAssign(x, rest, lvl); handled { // wp k03w (ext_k03w.go)
 		return s, err
 	}
 	cont := func(prefix string) (string, error) {
@@ -2929,6 +2944,9 @@ func (fc *fnCtx) mcallStmt(call *ast.CallExpr, lvl int) (string, bool, error) {
 }
 
 func (fc *fnCtx) mrange(x *ast.RangeStmt, rest []ast.Stmt, lvl int) (string, error) {
+	if s, handled, err := fc.k03wRange(x, rest, lvl); handled { // wp k03w (ext_k03w.go)
+		return s, err
+	}
 	if x.Tok != token.DEFINE && (x.Key != nil || x.Value != nil) {
 		return "", fmt.Errorf("range with assignment")
 	}
@@ -3041,6 +3059,9 @@ func genFuncM(p *packages.Package, e entry) (string, error) {
 				}
 				continue
 			}
+			if k03wSkipParam(fc, fd, fl) { // wp k03w: an unused parameter of map / interface type is dropped
+				continue
+			}
 			return "", err
 		}
 		for _, n := range fl.Names {
@@ -3087,6 +3108,7 @@ func genFuncM(p *packages.Package, e entry) (string, error) {
 			outTypes = append(outTypes, fc.m.ltype[n])
 		}
 	}
+	fc.m.outVars, outTypes = k03wOuts(fc, fd, fc.m.outVars, outTypes) // wp k03w: string parameters are values
 	if len(fc.m.outVars) > 0 {
 		fc.m.tie = true
 	}
@@ -3215,6 +3237,7 @@ func genFuncM(p *packages.Package, e entry) (string, error) {
 	if nerr != nil {
 		return "", nerr
 	}
+	params = fc.k03wGlobalParams(params) // wp k03w: run-time filled package-level tables read by the body
 	if fc.m.fuelUsed {
 		params = append([]string{"(fuel : Nat)"}, params...)
 	}
@@ -3243,7 +3266,7 @@ func genFuncM(p *packages.Package, e entry) (string, error) {
 	}
 	extRegister(e, fd, fc, nres) // ext_k17k20.go
 	fc.dmxRegister(e, fd, nres) // wp dmmirror: callable with struct arguments / init tables / fuel
-	return fc.emit(e.pkg+"."+e.name, params, body), nil
+	return fc.k03wThread(fc.emit(e.pkg+"."+e.name, params, body)), nil // wp k03w: loop bodies take the run-time tables too
 }
 
 func (fc *fnCtx) emit(goName string, params []string, body string) string {
